@@ -12,9 +12,9 @@ from .core import hx, codes, ROOT, canon
 from .p_parser import file_bytes
 
 LONGSEC = "L" * 255 + "ong" + "g" * 42            # a section name of 300 bytes (and one that agrees with it in the first 255)
-SECS = [None, "", "A", "[A]", "B", "C c", "AB", "[AB]", "a", "ab", "_nooD_", LONGSEC, "[" + LONGSEC + "]", LONGSEC[:255]]    # ("a" / "A": names differing in case only)       # bare and bracketed forms; names that are prefixes of each other
+SECS = [None, "", "A", "[A]", "B", "C c", "AB", "[AB]", "a", "ab", "_nooD_", "az", "bY", LONGSEC, "[" + LONGSEC + "]", LONGSEC[:255]]    # ("a" / "A": names differing in case only)       # bare and bracketed forms; names that are prefixes of each other
 KEYS = ["x", "y", "z", "k1", "k2", "k12", "xx", "_none_"]       # (the last one: the text the library uses for unused slots - a key like any other)
-VALS = ["v", "a b", "", "12", "x=y", "v\n w", "true", "No", "v\n w\n\tx y", "0x10", "010", "+12", "16 units", "_none_", "[A]", "100%", "%s%%", "caf\xc3\xa9", "3 \xe2\x82\xac"]
+VALS = ["v", "a b", "", "12", "x=y", "v\n w", "true", "No", "v\n w\n\tx y", "0x10", "010", "+12", "16 units", "ends in blanks  ", ", ", "_none_", "[A]", "100%", "%s%%", "caf\xc3\xa9", "3 \xe2\x82\xac"]
 FILES = ["/f1.conf", "/f2.conf", "/usr/etc/cfg.conf", "/etc/cfg.conf", "/usr/etc/cfg.conf.d/a.conf", "/usr/etc/cfg.conf.d/b.conf",
          "/etc/cfg.conf.d/a.conf", "/etc/cfg.conf.d/c.conf", "/usr/etc/cfg.conf.d/note.txt"]
 # trees of the general econf_readConfig (root prefix = the history's scratch directory): vendor / run / etc with and without a
